@@ -87,6 +87,81 @@ theorem in_place_unsafe :
       (crash d (protocolInPlace file chunks) k).get file ≠ some (concat chunks) :=
   ⟨[("f", "a = 1\nb = 2\n")], "f", ["a = 3\n", "b = 4\n"], 2, by decide⟩
 
+/-! ### the write protocol with user-space buffers (the primitives recorded from the real code) -/
+
+/-- **Crash safety with buffers, every crash point, the shape the code uses.**  Primitives as the
+harness records them from the real file object: `write` only fills the buffer of the handle, the
+text reaches the file at `close`; `os.replace` comes after the `with` block.  A process stopped
+after any number `k` of primitives (its buffers are lost) leaves the iteration file exactly as it
+was (possibly absent) or with the complete new content. -/
+theorem crash_safe_buffered (d : Dir) (tmp file : String) (chunks : List String) (hne : tmp ≠ file)
+    (k : Nat) :
+    (crashB d (protocolB tmp file chunks) k).get file = d.get file ∨
+    (crashB d (protocolB tmp file chunks) k).get file = some (concat chunks) :=
+  IterFile.crashB_protocol d tmp file chunks hne k
+
+/-- **Nothing is published before the rename**, whatever is done to the temporary file: any
+sequence of open / write / flush / close primitives on `tmp` only (in any order, any number of
+explicit flushes), stopped anywhere, leaves the iteration file untouched. -/
+theorem crash_before_publish_keeps_file (d : Dir) (tmp file : String) (hne : tmp ≠ file)
+    (ops : List BOp) (hops : ∀ op ∈ ops, IterFile.OnlyTmpB tmp op) (k : Nat) :
+    (crashB d ops k).get file = d.get file :=
+  IterFile.applyBs_frame tmp file hne (ops.take k) ⟨d, []⟩ (IterFile.goodHs_nil tmp d)
+    (fun op h => hops op (List.mem_of_mem_take h))
+
+/-- **Every protocol of the family "anything on the temporary file, then one rename as the last
+primitive"** (the decision `tmpThenReplace` the driver takes on a recorded trace): a stop before the
+last primitive leaves the iteration file untouched, so the only other state a stop can leave is
+the state after the complete save. -/
+theorem tmp_then_replace_safe (d : Dir) (tmp file : String) (ops : List BOp)
+    (h : tmpThenReplace ops tmp file = true) (k : Nat) (hk : k < ops.length) :
+    (crashB d ops k).get file = d.get file := by
+  simp only [tmpThenReplace, Bool.and_eq_true, bne_iff_ne, ne_eq, List.all_eq_true] at h
+  obtain ⟨⟨hne, _⟩, hall⟩ := h
+  have htake : ops.take k = ops.dropLast.take k := by
+    rw [List.dropLast_eq_take, List.take_take]
+    congr 1; omega
+  unfold crashB
+  rw [htake]
+  exact IterFile.applyBs_frame tmp file hne (ops.dropLast.take k) ⟨d, []⟩ (IterFile.goodHs_nil tmp d)
+    (fun op hop => IterFile.onlyTmpOp_sound tmp op (hall op (List.mem_of_mem_take hop)))
+
+/-- **The full statement is false for the shape "rename inside the `with` block"** (the temporary
+file is published before it is flushed and closed): for every non-empty text and every previous
+state of the iteration file other than the empty file, a stop right after the rename leaves a
+published file that is neither the old one nor the complete new one — it is empty. -/
+theorem replace_before_close_unsafe (d : Dir) (tmp file : String) (chunks : List String)
+    (hne : tmp ≠ file) (htext : concat chunks ≠ "") (hold : d.get file ≠ some "") :
+    ∃ k, (crashB d (protocolReplaceBeforeClose tmp file chunks) k).get file ≠ d.get file ∧
+         (crashB d (protocolReplaceBeforeClose tmp file chunks) k).get file ≠ some (concat chunks) := by
+  refine ⟨chunks.length + 2, ?_, ?_⟩
+  · rw [IterFile.crashB_replace_before_close d tmp file chunks hne]; exact fun h => hold h.symm
+  · rw [IterFile.crashB_replace_before_close d tmp file chunks hne]
+    intro h; exact htext (Option.some.inj h).symm
+
+/-- **The decision the driver takes on a recorded trace is the statement**: when the model finds no
+unsafe crash point in a recorded list of primitives, every stop (any `k`) leaves the old or the
+complete new file. -/
+theorem unsafePoints_nil_safe (d : Dir) (ops : List BOp) (file new : String)
+    (h : unsafePoints d ops file new = []) (k : Nat) :
+    (crashB d ops k).get file = d.get file ∨ (crashB d ops k).get file = some new := by
+  have hk : ∀ j, j ≤ ops.length →
+      (crashB d ops j).get file = d.get file ∨ (crashB d ops j).get file = some new := by
+    intro j hj
+    have hmem : j ∈ List.range (ops.length + 1) := List.mem_range.mpr (by omega)
+    have := (List.filter_eq_nil_iff.mp h) j hmem
+    have himp : ¬(crashB d ops j).get file = d.get file → (crashB d ops j).get file = some new := by
+      simpa using this
+    by_cases hc : (crashB d ops j).get file = d.get file
+    · exact Or.inl hc
+    · exact Or.inr (himp hc)
+  by_cases hle : k ≤ ops.length
+  · exact hk k hle
+  · have e1 : ops.take k = ops.take ops.length := by
+      rw [List.take_of_length_le (by omega), List.take_length]
+    have : crashB d ops k = crashB d ops ops.length := by unfold crashB; rw [e1]
+    rw [this]; exact hk _ (Nat.le_refl _)
+
 /-! ### sessions on one object: every entry point, every option combination, renames -/
 
 /-- **Clause (b) on a whole session.**  After any sequence of derivative evaluations
@@ -145,6 +220,43 @@ theorem session_rename_keeps_files {α} (ge : α → α → Bool) (s : Sess α) 
     (sstep ge s (.rename n)).files = s.files ∧ (sstep ge s (.reset : Op α)).files = s.files :=
   ⟨rfl, rfl⟩
 
+/-- **Estimate, rename, estimate**: after the marker was reset (`estimate()`), the first evaluation
+with a finite gradient is saved in the file of the name the object has *now*, whatever happened
+before the reset (other names, better points under other names). -/
+theorem session_first_after_reset_saved {α} (ge : α → α → Bool) (hge : GeOK ge) (s : Sess α)
+    (e : Eval α) (sc : Bool) (hfin : e.finite = true) :
+    (sstep ge (sstep ge s .reset) (.eval e sc)).files.get s.name = some e.x :=
+  session_new_best_saved ge hge (sstep ge s .reset) e sc hfin (fun b hb => by cases hb)
+
+/-- **Bootstrapping** (repaired behaviour, finding F-C15-boot): an evaluation on a resampled data
+set changes neither the files nor the marker nor the name. -/
+theorem session_bootstrap_keeps_everything {α} (ge : α → α → Bool) (s : Sess α) (e : Eval α) :
+    sstep ge s (.bootEval e) = s := rfl
+
+/-! ### several objects in one working directory -/
+
+/-- **Whatever the number of objects and however their operations interleave** (objects sharing a
+model name included), every iteration file is either what it was at the beginning or holds exactly
+the point of one evaluation with finite gradient issued by one of the objects. -/
+theorem world_files_are_evaluated_points {α} (ge : α → α → Bool) (w : World α)
+    (ops : List (Nat × Op α)) (n : String) :
+    (wrun ge w ops).files.get n = w.files.get n ∨
+    ∃ p ∈ ops, ∃ e sc, p.2 = .eval e sc ∧ e.finite = true ∧ (wrun ge w ops).files.get n = some e.x :=
+  IterFile.wrun_files ge ops w n
+
+/-- an operation on one object leaves the name and the marker of every other object as they were -/
+theorem world_other_objects_untouched {α} (ge : α → α → Bool) (w : World α) (i j : Nat) (op : Op α)
+    (hij : j ≠ i) : (wstep ge w (i, op)).objs[j]? = w.objs[j]? :=
+  IterFile.wstep_other ge w i j op hij
+
+/-- an operation on object `i` is the session step of that object on the shared files, so all the
+`session_*` theorems apply to every object of the directory -/
+theorem world_step_is_session_step {α} (ge : α → α → Bool) (w : World α) (i : Nat) (op : Op α)
+    (o : Obj α) (ho : w.objs[i]? = some o) :
+    let s' := sstep ge ⟨o.name, o.best, w.files⟩ op
+    (wstep ge w (i, op)).files = s'.files ∧ (wstep ge w (i, op)).objs[i]? = some ⟨s'.name, s'.best⟩ :=
+  IterFile.wstep_self ge w i op o ho
+
 /-! ### non-vacuity -/
 
 def geInt (a b : Int) : Bool := decide (a ≥ b)
@@ -174,5 +286,42 @@ example : (srun geInt (sstep geInt ⟨"default", none, []⟩ .reset)
 
 example : NoReset ([.eval ⟨["0"], -5, true⟩ true, .rename "b", .eval ⟨["1"], -4, true⟩ false] : List (Op Int)) := by
   simp [NoReset]
+
+/-- the protocol of the code on a two-line file over an existing one: no unsafe crash point; the
+same statements with the rename inside the `with` block: unsafe exactly after the rename (k = 6),
+although the final state is the complete file (nothing shows when the call returns normally);
+rewriting in place: unsafe after the truncation -/
+example : unsafePoints [("f", "a = 1\nb = 2\n")] (protocolB "f.tmp" "f" ["a = 3", "\n", "b = 4", "\n"])
+    "f" "a = 3\nb = 4\n" = [] := by decide
+example : unsafePoints [("f", "a = 1\nb = 2\n")]
+    (protocolReplaceBeforeClose "f.tmp" "f" ["a = 3", "\n", "b = 4", "\n"]) "f" "a = 3\nb = 4\n" = [6] := by decide
+example : (crashB [("f", "a = 1\nb = 2\n")]
+    (protocolReplaceBeforeClose "f.tmp" "f" ["a = 3", "\n", "b = 4", "\n"]) 7).get "f" = some "a = 3\nb = 4\n" := by decide
+example : unsafePoints [("f", "a = 1\n")] (protocolInPlaceB "f" ["a = 3", "\n"]) "f" "a = 3\n" = [1, 2, 3] := by decide
+example : tmpThenReplace [.openTrunc "t", .write "t" "a = 3\n", .flush "t", .write "t" "b = 4\n", .flush "t",
+    .close "t", .replace "t" "f"] "t" "f" = true := by decide
+example : tmpThenReplace (protocolReplaceBeforeClose "t" "f" ["a = 3\n"]) "t" "f" = false := by decide
+example : concat ["a = 3", "\n"] ≠ "" ∧ Dir.get [("f", "a = 1\n")] "f" ≠ some "" := by decide
+example : ∀ op ∈ [BOp.openTrunc "t", .write "t" "x", .flush "t", .write "t" "y", .close "t"],
+    IterFile.OnlyTmpB "t" op := by
+  intro op h
+  simp only [List.mem_cons, List.not_mem_nil, or_false] at h
+  rcases h with rfl | rfl | rfl | rfl | rfl <;> rfl
+
+/-- a saved value that is exactly 0.0 replaces a non-zero default -/
+example : restart [("a", "1.0"), ("b", "0.5")] (some [("a", "0.0"), ("b", "-0.0")])
+    = [("a", "0.0"), ("b", "-0.0")] := by decide
+
+/-- two objects sharing the model name "m" and a third one: the second object overwrites the file
+with its first (worse) point — its own marker is empty —, the first object then saves a point that
+is better than its own best; the bootstrap evaluation changes nothing; estimate → rename →
+estimate on the third object -/
+example : (wrun geInt ⟨[⟨"m", none⟩, ⟨"m", none⟩, ⟨"c", none⟩], []⟩
+    [(0, .eval ⟨["0"], -10, true⟩ false), (1, .eval ⟨["1"], -50, true⟩ true),
+     (0, .eval ⟨["2"], -20, true⟩ false), (0, .eval ⟨["3"], -5, true⟩ false),
+     (1, .bootEval ⟨["4"], -1, true⟩),
+     (2, .reset), (2, .eval ⟨["5"], -7, true⟩ false), (2, .rename "d"), (2, .reset),
+     (2, .eval ⟨["6"], -9, true⟩ false)]).files
+    = [("d", ["6"]), ("c", ["5"]), ("m", ["3"])] := by decide
 
 end C15
